@@ -11,6 +11,9 @@ pub mod c08;
 pub mod c09;
 pub mod c10;
 pub mod c11;
+pub mod c12;
+pub mod c16;
+pub mod c17;
 pub mod c19;
 
 pub const ALL: &[&str] = &[
@@ -29,6 +32,9 @@ pub fn run(ctx: &mut Ctx) {
         "C09" => c09::run(ctx),
         "C10" => c10::run(ctx),
         "C11" => c11::run(ctx),
+        "C12" => c12::run(ctx),
+        "C16" => c16::run(ctx),
+        "C17" => c17::run(ctx),
         "C19" => c19::run(ctx),
         other => {
             eprintln!("{other}: no engine built yet");
@@ -49,6 +55,9 @@ pub fn replay(ctx: &mut Ctx, stage: &str, case: &Value) -> Result<(), String> {
         "C09" => c09::replay(ctx, stage, case),
         "C10" => c10::replay(ctx, stage, case),
         "C11" => c11::replay(ctx, stage, case),
+        "C12" => c12::replay(ctx, stage, case),
+        "C16" => c16::replay(ctx, stage, case),
+        "C17" => c17::replay(ctx, stage, case),
         "C19" => c19::replay(ctx, stage, case),
         other => Err(format!("{other}: no engine built yet")),
     }
